@@ -237,3 +237,105 @@ Proof.
 Qed.
 
 End Rot.
+
+(* ------------------------------------------------------------------ *)
+(* Examples over Qc: the hypotheses are satisfiable (a proper rational rotation - the 3-4-5 rotation about z -
+   and an improper one, (1/3)[[1,2,2],[2,1,-2],[2,-2,1]], det = -1), and the STATEMENT of the theorems is
+   re-checked by computation (vm_compute, independent of the proof) for every pair of p and d components. *)
+From Coq Require Import ZArith QArith Qcanon.
+Section Examples.
+Let KQ : Fops Qc := QcK true (Q2Qc 3) (fun x => x) (fun _ => Q2Qc 1) (fun x => x) (fun _ x => x).
+Let KQf : is_field KQ := QcK_field _ _ _ _ _ _.
+Let q (n : Z) (d : positive) : Qc := qc_of n d.
+
+Definition R345 : @mat3 Qc :=
+  ((q 3 5, q (-4) 5, q 0 1), (q 4 5, q 3 5, q 0 1), (q 0 1, q 0 1, q 1 1)).
+Definition Rimp : @mat3 Qc :=
+  ((q 1 3, q 2 3, q 2 3), (q 2 3, q 1 3, q (-2) 3), (q 2 3, q (-2) 3, q 1 3)).
+Definition exA : shell Qc := mkShell Qc 2 (q 1 2) (q (-1) 1) (q 2 1) [q 3 2] [[q 1 1]] false [] [].
+Definition exB : shell Qc := mkShell Qc 2 (q 0 1) (q 1 3) (q (-1) 1) [q 2 3] [[q 1 1]] false [] [].
+Definition exC : @vec3 Qc := (q 1 4, q (-2) 1, q 1 3).
+
+Lemma KQ_exp_hom : forall x y, fexp KQ (fadd KQ x y) = fmul KQ (fexp KQ x) (fexp KQ y).
+Proof. intros x y. apply Qc_is_canon. vm_compute. reflexivity. Qed.
+
+Lemma orthogonal_R345 : orthogonal KQ R345.
+Proof.
+  intros i j Hi Hj. destruct i as [|[|[|i]]]; try lia; destruct j as [|[|[|j]]]; try lia;
+    split; apply Qc_is_canon; vm_compute; reflexivity.
+Qed.
+Lemma orthogonal_Rimp : orthogonal KQ Rimp.
+Proof.
+  intros i j Hi Hj. destruct i as [|[|[|i]]]; try lia; destruct j as [|[|[|j]]]; try lia;
+    split; apply Qc_is_canon; vm_compute; reflexivity.
+Qed.
+Lemma ex_psum : psum KQ (q 3 2) (q 2 3) <> f0 KQ.
+Proof. intro H. apply (f_equal this) in H. vm_compute in H. discriminate H. Qed.
+
+(* the theorems instantiated: nothing left to assume *)
+Example overlap_rotation_345_pd :
+  forall ca cb,
+  Jsum KQ (fun a' => Jsum KQ (fun b' =>
+       ovl_prim KQ (rot_shell KQ R345 exA) (rot_shell KQ R345 exB) a' b' (q 3 2) (q 2 3))
+     (rot_expand KQ R345 cb)) (rot_expand KQ R345 ca)
+  = ovl_prim KQ exA exB ca cb (q 3 2) (q 2 3).
+Proof.
+  intros. apply (overlap_prim_rotation_covariant KQ KQf KQ_exp_hom R345 exA exB ca cb _ _ orthogonal_R345 ex_psum).
+Qed.
+Example overlap_rotation_improper :
+  forall ca cb,
+  Jsum KQ (fun a' => Jsum KQ (fun b' =>
+       ovl_prim KQ (rot_shell KQ Rimp exA) (rot_shell KQ Rimp exB) a' b' (q 3 2) (q 2 3))
+     (rot_expand KQ Rimp cb)) (rot_expand KQ Rimp ca)
+  = ovl_prim KQ exA exB ca cb (q 3 2) (q 2 3).
+Proof.
+  intros. apply (overlap_prim_rotation_covariant KQ KQf KQ_exp_hom Rimp exA exB ca cb _ _ orthogonal_Rimp ex_psum).
+Qed.
+
+(* the statement re-evaluated numerically: every (ca, cb) with ca, cb among the 3 p and the 6 d components *)
+Definition pd_comps : list comp := default_comps 1 ++ default_comps 2.
+Definition ovl_cov_check (R : @mat3 Qc) (ca cb : comp) : bool :=
+  Qeq_bool
+    (Jsum KQ (fun a' => Jsum KQ (fun b' =>
+         ovl_prim KQ (rot_shell KQ R exA) (rot_shell KQ R exB) a' b' (q 3 2) (q 2 3))
+       (rot_expand KQ R cb)) (rot_expand KQ R ca))
+    (ovl_prim KQ exA exB ca cb (q 3 2) (q 2 3)).
+Definition mom_cov_check (R : @mat3 Qc) (o ca cb : comp) : bool :=
+  let C' := mapply KQ R exC in
+  Qeq_bool
+    (Jsum KQ (fun o' => Jsum KQ (fun a' => Jsum KQ (fun b' =>
+         mom_prim KQ (vget C' 0) (vget C' 1) (vget C' 2) o' (rot_shell KQ R exA) (rot_shell KQ R exB) a' b'
+                  (q 3 2) (q 2 3))
+       (rot_expand KQ R cb)) (rot_expand KQ R ca)) (rot_expand KQ R o))
+    (mom_prim KQ (vget exC 0) (vget exC 1) (vget exC 2) o exA exB ca cb (q 3 2) (q 2 3)).
+
+Example overlap_rotation_345_computed :
+  forallb (fun ca => forallb (fun cb => ovl_cov_check R345 ca cb) pd_comps) pd_comps = true.
+Proof. vm_compute. reflexivity. Qed.
+Example overlap_rotation_improper_computed :
+  forallb (fun ca => forallb (fun cb => ovl_cov_check Rimp ca cb)
+     [(0, 1, 0)%nat; (1, 0, 1)%nat; (0, 0, 2)%nat]) pd_comps = true.
+Proof. vm_compute. reflexivity. Qed.
+(* the covariance is not vacuous: without the representation matrices the d-d overlap DOES change *)
+Example overlap_rotation_not_invariant :
+  Qeq_bool (ovl_prim KQ (rot_shell KQ R345 exA) (rot_shell KQ R345 exB) (2, 0, 0)%nat (1, 1, 0)%nat (q 3 2) (q 2 3))
+           (ovl_prim KQ exA exB (2, 0, 0)%nat (1, 1, 0)%nat (q 3 2) (q 2 3)) = false.
+Proof. vm_compute. reflexivity. Qed.
+Example moment_rotation_computed :
+  forallb (fun R => forallb (fun t => mom_cov_check R (fst (fst t)) (snd (fst t)) (snd t))
+     [((1, 0, 0), (0, 1, 0), (2, 0, 0))%nat; ((0, 0, 1), (1, 0, 1), (0, 1, 1))%nat;
+      ((0, 1, 1), (0, 1, 0), (1, 0, 1))%nat; ((1, 0, 0), (0, 0, 0), (1, 1, 0))%nat]) [R345; Rimp] = true.
+Proof. vm_compute. reflexivity. Qed.
+End Examples.
+
+(* the hypotheses of the two theorems, packed for Props/C12_rotation.v *)
+Lemma rotation_hypotheses_satisfiable :
+  exists (F : Type) (K : Fops F) (R1 R2 : @mat3 F) (alpha beta : F),
+    is_field K /\ (forall x y, fexp K (fadd K x y) = fmul K (fexp K x) (fexp K y))
+    /\ orthogonal K R1 /\ orthogonal K R2 /\ psum K alpha beta <> f0 K.
+Proof.
+  exists Qc, (QcK true (Q2Qc 3) (fun x => x) (fun _ => Q2Qc 1) (fun x => x) (fun _ x => x)),
+    R345, Rimp, (qc_of 3 2), (qc_of 2 3).
+  split; [apply QcK_field|]. split; [apply KQ_exp_hom|]. split; [apply orthogonal_R345|].
+  split; [apply orthogonal_Rimp|apply ex_psum].
+Qed.
